@@ -49,6 +49,7 @@ var defaultInterpreted = []string{
 	"github.com/tokenized/pkg/bsor",
 	"github.com/tokenized/pkg/json",
 	"github.com/tokenized/threads",
+	"github.com/tokenized/config",
 	"github.com/pkg/errors",
 	"sort", "slices", "bytes", "io", "errors", "strings", "unicode/utf8", "math/bits",
 	"encoding/hex", "encoding/binary", "time", "context", "container/list", "strconv", "math",
